@@ -587,7 +587,9 @@ function norm (n) {
     o.body = o.body.stmts[0].argument
     o.$arrowBlockUndone = true
   }
-  if (o.type === 'TemplateElement') { /* cooked + raw both compared */ o.rawText = n.raw }
+  // cooked + raw both compared; a line terminator sequence <CR><LF> or <CR> inside a template IS <LF> in both its
+  // value and its raw value (ECMA-262, TRV of LineTerminatorSequence), whatever the parser keeps in `raw`
+  if (o.type === 'TemplateElement') { o.rawText = typeof n.raw === 'string' ? n.raw.replace(/\r\n?/g, '\n') : n.raw }
   if (o.type === 'RegExpLiteral') { o.pattern = n.pattern; o.flags = n.flags }
   // swc: a variable reference / binding (Ident) carries `optional`, a property name (IdentName) does not
   if (o.type === 'Identifier') o.$isRef = ('optional' in n)
